@@ -1854,6 +1854,10 @@ pub fn c19(rec: &RunRecord) -> Vec<Violation> {
     // hops whose expectation rests on "first responding hop quotes a datagram whose source
     // port, but not its source address, was rewritten"
     let mut port_only_first = [false; 256];
+    // hops whose probe went out with a UDP checksum field of zero (the computed checksum was
+    // 0; such a datagram counts as unchecksummed, and an address translator leaves the field
+    // alone, RFC 3022 section 4.1)
+    let mut zero_csum_probe = [false; 256];
     for (k, round) in rec.rounds.iter().enumerate() {
         let attempts = attempts_of_round(rec, k);
         if attempts.len() != round.probes.len() {
@@ -1892,6 +1896,7 @@ pub fn c19(rec: &RunRecord) -> Vec<Violation> {
                 }
             };
             port_only_first[c.ttl.0 as usize] = prev.is_none() && r.rewritten == (false, true);
+            zero_csum_probe[c.ttl.0 as usize] = sent == 0 && r.rewritten != (false, false);
             prev = Some(quoted);
             expected[c.ttl.0 as usize] = Some(want);
             if c.actual_udp_checksum.map(|x| x.0) != Some(quoted) {
@@ -1915,7 +1920,13 @@ pub fn c19(rec: &RunRecord) -> Vec<Violation> {
                     "C19",
                     format!(
                         "c19.status.{}{:?}-instead-of-{want:?}",
-                        if applicable && port_only_first[ttl as usize] { "port-only-rewrite." } else { "" },
+                        if applicable && zero_csum_probe[ttl as usize] {
+                            "unchecksummed-probe."
+                        } else if applicable && port_only_first[ttl as usize] {
+                            "port-only-rewrite."
+                        } else {
+                            ""
+                        },
                         hop.last_nat_status()
                     ),
                     format!("after round {k}, ttl {ttl}: NAT status {:?}, the quoted checksums on the wire give {want:?}", hop.last_nat_status()),
